@@ -61,7 +61,7 @@ func init() {
 func c03Cases(tier string, seed int64) []string {
 	n := 16
 	if tier == "thorough" {
-		n = 1600
+		n = 1000
 	}
 	var l []string
 	for i := 0; i < n; i++ {
